@@ -240,7 +240,8 @@ WCliLineD(w, ln, dig(_, _, _)) ==
       w3 == IF w.hasPw /\ w.nlines = 1 /\ w.phase # "rejected" /\ w.phase # "authwait"
             THEN Chk(w2, ln.k = "idle", "C05", "first line after authentication is not idle") ELSE w2
       healthy == w.fault = ""
-      w4a == Chk(w3, ~healthy \/ w.mode # "idle" \/ ln.k = "noidle", "C05", "command written while the server waits in idle")
+      \* (after garbage or a refused idle the server still works by its rules: the idle discipline stays judgeable)
+      w4a == Chk(w3, ~(healthy \/ w.fault \in {"garbage", "idleack"}) \/ w.mode # "idle" \/ ln.k = "noidle", "C05", "command written while the server waits in idle")
       \* a noidle that crosses an idle reply still in flight is a legal race (the server ignores it); one written after that reply
       \* was read completely is not: the client knows that no idle is pending
       w4 == Chk(w4a, ~(ln.k = "noidle" /\ (healthy \/ w.fault = "idleack") /\ w.phase = "up" /\ w.mode # "idle" /\ w.rd = w.wr /\ ~w.silent), "C05", "noidle written although no idle is pending")
@@ -448,7 +449,9 @@ WConnected(w, ok, err, version, nh, greetOk, greetVersion, greetCut) ==
      LET w4 == IF w.phase = "rejected" THEN Chk(w3, err = "incorrect_password", "C18", "rejected password not reported as incorrect password")
                ELSE Chk(w3, err # "incorrect_password", "C18", "incorrect-password error although the server did not reject the password") IN
      LET w5 == IF ~greetOk THEN Chk(w4, w.nlines = 0, "C18", "something was written although the greeting was not valid") ELSE w4 IN
-     w5
+     \* "pending": connect had not returned when the handshake script was over
+     Chk(w5, ~(err = "pending" /\ greetOk /\ w.fault = "" /\ w.dl = w.wr /\ ~w.silent), "C18",
+         "connect did not return although the greeting is valid, everything the server sent was delivered and nothing failed (was the password line written completely?)")
 
 \* --- timer / quiescence
 \* nothing is left for the loop to send: every request reached the server or was abandoned by its caller
